@@ -68,8 +68,14 @@ fn main() {
                 "load" => {
                     let path = args.extra.get("file").expect("--file");
                     let strict = args.extra.get("strict").is_some_and(|v| v == "1");
-                    let text = std::fs::read_to_string(path).unwrap();
-                    match a2lfile::load_from_string(&text, None, strict) {
+                    let text = std::fs::read_to_string(path).unwrap_or_default();
+                    crate::util::reset_budget();
+                    let res = if args.extra.contains_key("by-path") {
+                        a2lfile::load(path, None, strict)
+                    } else {
+                        a2lfile::load_from_string(&text, None, strict)
+                    };
+                    match res {
                         Ok((a, log)) => {
                             println!("OK, {} log entries", log.len());
                             for l in &log {
